@@ -390,3 +390,94 @@ func c03EveryCount(c *Ctx, index int) {
 		c.Eval(4)
 	})
 }
+
+// c03Universe: bitmaps at the scale of the whole universe (cardinality 2^32, 2^32-1, ... : the only bitmaps whose
+// cardinality, ranks and select indexes do not fit 32 bits or sit right at that edge).
+func buildUniverseScale(r *Rng) (*roaring.Bitmap, *ISet, string) {
+	b := roaring.New()
+	m := NewISet()
+	b.AddRange(0, 1<<32)
+	m.AddRange(0, max32)
+	what := "the complete universe [0,2^32)"
+	switch r.Intn(6) {
+	case 0:
+	case 1:
+		x := edgeVal32(r, m)
+		b.Remove(uint32(x))
+		m.Remove(x)
+		what = fmt.Sprintf("the universe minus {%d}", x)
+	case 2:
+		k := []uint64{0, 1, 0x7FFF, 0xFFFE, 0xFFFF}[r.Intn(5)]
+		b.RemoveRange(k<<16, (k+1)<<16)
+		m.RemoveRange(k<<16, k<<16|0xFFFF)
+		what = fmt.Sprintf("the universe minus chunk %d", k)
+	case 3:
+		for i := 0; i < 1+r.Intn(6); i++ {
+			x := edgeVal32(r, m)
+			b.Remove(uint32(x))
+			m.Remove(x)
+		}
+		what = "the universe minus a few values"
+	case 4:
+		// everything from some value up to the end of the universe, or from 0 up to some value
+		x := edgeVal32(r, m)
+		if r.Chance(0.5) {
+			b.RemoveRange(0, x)
+			if x > 0 {
+				m.RemoveRange(0, x-1)
+			}
+			what = fmt.Sprintf("[%d,2^32)", x)
+		} else {
+			b.RemoveRange(x, 1<<32)
+			m.RemoveRange(x, max32)
+			what = fmt.Sprintf("[0,%d)", x)
+		}
+	default:
+		b.Flip(0, 1<<32)
+		b.Flip(0, 1<<32)
+		what = "the complete universe after two whole-universe flips"
+	}
+	if r.Chance(0.3) {
+		b.RunOptimize()
+	}
+	return b, m, what
+}
+
+func c03Universe(c *Ctx) {
+	r := c.R
+	b, m, what := buildUniverseScale(r)
+	c.Step("%s (cardinality %d)", what, m.Card())
+	c.Distinct(m.Hash())
+	queryBattery(c, &BM{B: b, M: m}, 12)
+	if c.Failed() {
+		return
+	}
+	c.Guard("query/Equals", func() {
+		o := b.Clone()
+		if !o.Equals(b) || o.Checksum() != b.Checksum() {
+			c.Fail("query/Equals/same-set", "a clone of %s is not Equal / has another Checksum", what)
+		}
+		x := edgeVal32(r, m)
+		if m.Contains(x) {
+			o.Remove(uint32(x))
+		} else {
+			o.Add(uint32(x))
+		}
+		if o.Equals(b) || b.Equals(o) {
+			c.Fail("query/Equals/different-set", "Equals is true for sets that differ in value %d (%s)", x, what)
+		}
+		c.Eval(2)
+	})
+	c.Sample(map[string]any{"unit": "universe-scale", "case_seed": c.CaseSeed, "bitmap": what})
+}
+
+// c15Universe: neighbour queries on bitmaps at the scale of the universe (walks over thousands of full chunks, the
+// "every integer on that side is present" answers).
+func c15Universe(c *Ctx) {
+	b, m, what := buildUniverseScale(c.R)
+	c.Step("%s (cardinality %d)", what, m.Card())
+	c.Distinct(m.Hash())
+	targets := append(argBattery(c.R, m, 12), 0, 1, 65535, 65536, 1<<31, max32-65536, max32-1, max32)
+	neighbourChecks(c, &BM{B: b, M: m}, targets, "")
+	c.Sample(map[string]any{"unit": "universe-scale", "case_seed": c.CaseSeed, "bitmap": what})
+}
